@@ -23,7 +23,7 @@ const ArithDefsSMT = `(assert (forall ((a Int) (b Int)) (! (= (gomul a b) (* a b
 // PreludeSMT is the fixed part of every query of the bounded tier: the Val /
 // Err datatypes and Go's int64 arithmetic.  (No set-logic: core.Solve adds it.)
 const PreludeSMT = `(declare-datatypes ((Val 0)) (((VNil) (VDNE) (VBool (bval Bool)) (VInt (ival Int)) (VStr (sval Int)) (VIntList (ilid Int)) (VStrList (slid Int)) (VObj (oid Int)))))
-(declare-datatypes ((Err 0)) (((ENil) (EErr (eid Int)))))
+(declare-datatypes ((Err 0)) (((ENil) (EErr (eid Int)) (EBuiltin (efam Int)))))
 (define-fun wrap64 ((x Int)) Int (- (mod (+ x 9223372036854775808) 18446744073709551616) 9223372036854775808))
 (declare-fun gomul (Int Int) Int)
 (declare-fun godiv (Int Int) Int)
